@@ -25,7 +25,7 @@ fn deep_case(depth: u64, fold: bool, extra_shallow: bool, mapped: bool, recursio
     if extra_shallow {
         recs.push(Rec::Sample { pid: 100, tid: 100, t: t0 + 1000, kernel: false, period: 1_000_000, ip: 0x10008, chain: vec![CTX_USER, 0x10008, 0x10018, 0x10028] });
     }
-    History { reuse: false, fold, ref_time: t0, recs }
+    History { reuse: false, fold, ref_time: t0, recs, files: Vec::new() }
 }
 
 impl Prop for C14 {
